@@ -115,10 +115,11 @@ Theorem manager_open_count_refuted :
 Proof. vm_compute. auto. Qed.
 Print Assumptions manager_open_count_refuted.
 
-(* [FULL] current tree with fix F4: after any request sequence openFiles is the start value plus successful opens minus closes, so it is back to the start value when every successful open was closed once *)
+(* [FULL] current tree with fix F4: after any request sequence openFiles is the start value plus successful opens minus closes, so it is back to the start value when every successful open was closed once; an open whose context was canceled before execution (request 7) opens nothing, returns no handle and leaves the counter alone, so a canceled Store operation has nothing to close *)
 Theorem manager_open_count_balanced :
-  forall V rs n, fixF4 V = true -> mgr_run V n rs = n + countz is_open_ok rs - countz is_close rs.
-Proof. exact mgr_balanced. Qed.
+  forall V rs n, fixF4 V = true ->
+    mgr_run V n rs = n + countz is_open_ok rs - countz is_close rs /\ mgr_step V n 7 = n.
+Proof. intros V rs n HV. split; [exact (mgr_balanced V rs n HV) | reflexivity]. Qed.
 Print Assumptions manager_open_count_balanced.
 
 (* [FULL] serial equivalence over any finite set of operations on any number of tracts, any tree, every schedule, every oracle answer, every wake-up order, the GC gone path included (ok_op excludes only KGoneOld, the lock-free gone program of the code before fix ab74e69). When all operations have returned, the operations that got their tract lock, taken in the order in which they released it, each run alone on an idle store that holds its tract in the state its predecessors left and changing that tract only, yield exactly the per-operation results and, for every tract, the final map entry, file and generation of the interleaved execution; every other operation was refused (busy, bad version, invalid argument) and changed nothing. Release order respects real time (an operation that returned before another was invoked released first), so the chain is a linearization. Every modelled operation touches one local tract (PackTracts reads its sources remotely); RSEncode touches no local tract and is not modelled *)
